@@ -44,13 +44,85 @@ Theorem fork_converges_old : forall A B x, NInv x -> all_valid store_old_node x 
 Proof. exact fork_old_obs. Qed.
 Print Assumptions fork_converges_old.
 
+(* ---------- classes delivered with a block for its deployed contracts (juno commit 007ff78) ----------
+   A block may come with class definitions it does not declare: the synchroniser fetches the definition of the
+   class of every contract the block deploys when the node does not know it yet, and Update registers every
+   delivered definition under the block's number.  [valid_next] (through valid_diffb / deliv_ok) allows exactly
+   such deliveries: each delivered hash is the class hash of one of the block's own deployed contracts, is not
+   declared by the block and is listed once.  C04_new / C04_old above already quantify over these blocks; the
+   two statements below spell out what they say about the class table: Store registers a delivered class the node
+   did not know under the block's number, and RevertHead gives back the class table of the node that never
+   stored the block (the class is gone again; a class known before keeps its record). *)
+Theorem C04_revert_removes_delivered_classes : forall x b, NInv_new x -> valid_next x b = true ->
+  sys_guard (n_st x) (b_diff b) = true ->
+  (forall h, In h (d_deliv (b_diff b)) -> get (s_decl (n_st x)) [h] = None ->
+     get (s_decl (n_st (store_new_node x b))) [h] = Some (s_next (n_st x))) /\
+  exists x', revert_new_node (store_new_node x b) = Some x' /\ s_decl (n_st x') = s_decl (n_st x).
+Proof. exact deliv_new_lemma. Qed.
+Print Assumptions C04_revert_removes_delivered_classes.
+
+Theorem C04_revert_removes_delivered_classes_old : forall x b, NInv x -> valid_next x b = true ->
+  sys_guard (n_st x) (b_diff b) = true ->
+  (forall h, In h (d_deliv (b_diff b)) -> get (s_decl (n_st x)) [h] = None ->
+     get (s_decl (n_st (store_old_node x b))) [h] = Some (s_next (n_st x))) /\
+  exists x', revert_old_node (store_old_node x b) = Some x' /\ s_decl (n_st x') = s_decl (n_st x).
+Proof. exact deliv_old_lemma. Qed.
+Print Assumptions C04_revert_removes_delivered_classes_old.
+
+(* block 0 deploys contract 0x100 with class 10 and comes with the definition of class 10, which it does not
+   declare; block 1 (after the revert) DECLARES class 10 *)
+Definition gd : block := mkBlock 3001 (mkDiff [(256, 10)] [] [] [] [] [10]) [] 1 1 false [] [].
+Definition gp : block := mkBlock 3002 (mkDiff [(257, 11)] [] [] [] [] []) [] 2 2 false [] [].
+Definition ge : block := mkBlock 3003 (mkDiff [] [] [] [] [10] []) [] 3 3 false [] [].
+
+(* BEFORE the repair State.Revert (both backends) walked the declared class lists only: the class delivered for
+   the deployed contract survived RevertHead - the node that stored and reverted the block differs from the node
+   that never saw it (class table, getClass at head), and a later declaration of the same hash keeps the reverted
+   block's declared-at height (0 instead of 1).  This is the defect repaired by 007ff78; the repaired model
+   reverts the same block exactly. *)
+Theorem C04_revert_before_fix_refuted :
+  valid_next node_empty gd = true /\ sys_guard (n_st node_empty) (b_diff gd) = true /\
+  (exists x', revert_new_node_before_007ff78 (store_new_node node_empty gd) = Some x' /\ obs x' <> obs node_empty /\
+     get (s_decl (n_st x')) [10] = Some 0 /\ read_head (n_st x') (QDecl 10) = Found 0 /\
+     read_head (n_st (store_new_node (store_new_node x' gp) ge)) (QDecl 10) = Found 0 /\
+     read_head (n_st (store_new_node (store_new_node node_empty gp) ge)) (QDecl 10) = Found 1) /\
+  (exists x', revert_old_node_before_007ff78 (store_old_node node_empty gd) = Some x' /\ obs x' <> obs node_empty /\
+     get (s_decl (n_st x')) [10] = Some 0 /\ read_head (n_st x') (QDecl 10) = Found 0 /\
+     read_head (n_st (store_old_node (store_old_node x' gp) ge)) (QDecl 10) = Found 0 /\
+     read_head (n_st (store_old_node (store_old_node node_empty gp) ge)) (QDecl 10) = Found 1) /\
+  revert_new_node (store_new_node node_empty gd) = Some node_empty /\
+  revert_old_node (store_old_node node_empty gd) = Some node_empty.
+Proof.
+  split; [vm_compute; reflexivity|]. split; [vm_compute; reflexivity|]. split; [|split].
+  - eexists. split; [vm_compute; reflexivity|]. split; [|vm_compute; repeat split; reflexivity].
+    vm_compute. intro H. discriminate H.
+  - eexists. split; [vm_compute; reflexivity|]. split; [|vm_compute; repeat split; reflexivity].
+    vm_compute. intro H. discriminate H.
+  - vm_compute. split; reflexivity.
+Qed.
+Print Assumptions C04_revert_before_fix_refuted.
+
+(* the admissibility condition is not decorative: a class delivered with a block that deploys no contract of that
+   class is registered by Update and not removed by the repaired Revert either (juno accepts such a Store call; the
+   synchroniser never makes one) *)
+Definition gx : block := mkBlock 3004 (mkDiff [(256, 11)] [] [] [] [] [10]) [] 1 1 false [] [].
+Example ex_deliv_admissibility_needed :
+  valid_next node_empty gx = false /\
+  exists x', revert_new_node (store_new_node node_empty gx) = Some x' /\ get (s_decl (n_st x')) [10] = Some 0.
+Proof. split; [vm_compute; reflexivity|]. eexists. split; vm_compute; reflexivity. Qed.
+
+(* delivered classes along a fork: fork A = [gd] (delivers class 10), fork B = [gp; ge] *)
+Example ex_deliv_fork : all_valid store_new_node node_empty [gd] /\ all_valid store_old_node node_empty [gd] /\
+  obs (nrun_new (map NStore [gd] ++ repeat NRevert 1 ++ [NStore gp; NStore ge]) node_empty) = obs (nrun_new [NStore gp; NStore ge] node_empty).
+Proof. vm_compute. repeat split; reflexivity. Qed.
+
 (* ---------- without the guard: a block that empties a system contract (replayed on the real node,
    findings/C04.md) ---------- *)
-Definition wr (a k v : N) : diff := mkDiff [] [] [] [((a, k), v)] [].
+Definition wr (a k v : N) : diff := mkDiff [] [] [] [((a, k), v)] [] [].
 Definition blk (h : N) (d : diff) : block := mkBlock h d [] h 0 false [] [].
 Definition s0 : block := blk 2001 (wr 1 1 5).      (* block 0: slot 1 of system contract 0x1 := 5 *)
 Definition s1 : block := blk 2002 (wr 1 1 0).      (* block 1: back to zero - the contract's storage is empty *)
-Definition s2 : block := blk 2003 (mkDiff [(256, 10)] [] [] [] []).   (* block 2: unrelated *)
+Definition s2 : block := blk 2003 (mkDiff [(256, 10)] [] [] [] [] []).   (* block 2: unrelated *)
 
 (* NEW backend: Update removed the emptied contract; Revert of that block creates it again from the reverse
    diff, stamped with the REVERTED block's number 1 instead of 0: the node that stored and reverted block 1
@@ -83,13 +155,13 @@ Print Assumptions C04_old_sys_refuted.
 
 (* the blocks the guard excludes are exactly of this kind; a zero write that leaves another slot is fine *)
 Example ex_sys_guard : sys_guard (n_st (store_new_node node_empty s0)) (b_diff s1) = false /\
-  all_valid store_new_node node_empty [blk 1 (mkDiff [] [] [] [((1, 1), 5); ((1, 2), 6)] []); blk 2 (wr 1 1 0); blk 3 (wr 2 9 1)] /\
-  all_valid store_old_node node_empty [blk 1 (mkDiff [] [] [] [((1, 1), 5); ((1, 2), 6)] []); blk 2 (wr 1 1 0); blk 3 (wr 2 9 1)].
+  all_valid store_new_node node_empty [blk 1 (mkDiff [] [] [] [((1, 1), 5); ((1, 2), 6)] [] []); blk 2 (wr 1 1 0); blk 3 (wr 2 9 1)] /\
+  all_valid store_old_node node_empty [blk 1 (mkDiff [] [] [] [((1, 1), 5); ((1, 2), 6)] [] []); blk 2 (wr 1 1 0); blk 3 (wr 2 9 1)].
 Proof. vm_compute. repeat split; reflexivity. Qed.
 
 (* ---------- non-vacuity; the block that used to break the legacy revert ---------- *)
-Definition g0 : block := mkBlock 1001 (mkDiff [(256, 10)] [] [] [] []) [(501, None); (502, Some 601)] 1 1 false [(20, (30, 31))] [].
-Definition b1 : block := mkBlock 1002 (mkDiff [] [] [] [((256, 7), 0)] []) [] 2 2 false [] [].
+Definition g0 : block := mkBlock 1001 (mkDiff [(256, 10)] [] [] [] [] []) [(501, None); (502, Some 601)] 1 1 false [(20, (30, 31))] [].
+Definition b1 : block := mkBlock 1002 (mkDiff [] [] [] [((256, 7), 0)] [] []) [] 2 2 false [] [].
 Definition x1 : node := store_old_node node_empty g0.
 
 (* block 1 writes zero to the never-written slot 7 (DESIGN 8.1): storable, and reverted exactly *)
@@ -98,7 +170,7 @@ Proof. vm_compute. split; reflexivity. Qed.
 Example ex_new_reverts : revert_new_node (store_new_node (store_new_node node_empty g0) b1) = Some (store_new_node node_empty g0).
 Proof. vm_compute. reflexivity. Qed.
 (* block 1 (protocol 0.14.1) migrates the class block 0 declared under the old hash *)
-Definition b1' : block := mkBlock 1002 (mkDiff [] [] [] [((256, 7), 3)] []) [(503, None)] 2 2 true [] [(20, 31)].
+Definition b1' : block := mkBlock 1002 (mkDiff [] [] [] [((256, 7), 3)] [] []) [(503, None)] 2 2 true [] [(20, 31)].
 Example ex_old_reverts : revert_old_node (store_old_node x1 b1') = Some x1.
 Proof. vm_compute. reflexivity. Qed.
 Example ex_hyps_satisfiable : valid_next x1 b1' = true /\ valid_next node_empty g0 = true.
